@@ -85,6 +85,15 @@ def judge_slice(case, rec):
     for part, hpart, tkey in zip(ref.partitions, hid.partitions, tkeys):
         lib.warm(part, case.get("warmup"))
         orc = Oracle(sv, q, table_key=tkey)
+        if orc.cols.var.get("flavour") == "cat_date" and sv["n"] % 2 == 0:
+            # the smoothed forms (trailing means over the dates) read BEFORE the plain
+            # proportions on the partition that is judged; `hpart` reads only the plain ones
+            rec.event("smoothed proportions read first")
+            for name in ("smoothed_column_proportions", "smoothed_column_percentages"):
+                try:
+                    getattr(part, name)
+                except Exception:  # noqa - availability is not the point here
+                    pass
         for p, is_ref in ((part, True), (hpart, False)):
             _check_values(p, orc, case, rec)
         _check_sums(part, hpart, orc, case, rec)
